@@ -104,29 +104,43 @@ def run(ctx, rep):
                 if p2 and ERR in b.locals[p2[0]]:
                     sorted_kinds.add((b.file, re.search(r"(ArrayQueue|SegQueue|Vec)", ty).group(1)))
     n_cp = 0
-    for pb, pbi, pt, pty in pushes:
-        kind = re.search(r"(ArrayQueue|SegQueue|Vec)", pty).group(1)
-        if (pb.file, kind) not in sorted_kinds:
-            continue
-        cfg, flow = P.cfg(pb), P.flow(pb)
-        loops = []
+
+    def hash_loops_around(body, block):
+        cfg, flow = P.cfg(body), P.flow(body)
+        out = []
         for bi, t in flow.calls():
             ck = callee_key(t["f"]) or ""
             nxt = t.get("to")
             in_cycle = nxt is not None and bi in cfg.reachable_from(nxt)
-            if ck.endswith("as std::iter::Iterator>::next") and cfg.dominates(bi, pbi) and in_cycle:
-                loops.append((bi, ck))
-        hash_loops = [(bi, ck) for bi, ck in loops if re.search(r"hashbrown|HashMap|HashSet|hash_map|hash_set|hash_table", ck)]
-        if not hash_loops:
-            continue
+            if ck.endswith("as std::iter::Iterator>::next") and cfg.dominates(bi, block) and in_cycle and re.search(r"hashbrown|HashMap|HashSet|hash_map|hash_set|hash_table", ck):
+                out.append(bi)
+        return out
+
+    def check_site(body, block, line, label):
+        """`block` (a push, or a call of a helper that pushes) lies in a hash-container loop: the loop must go on afterwards"""
+        nonlocal n_cp
+        nexts = set(hash_loops_around(body, block))
+        if not nexts:
+            return False
         n_cp += 1
-        nexts = {bi for bi, _ck in hash_loops}
-        after = cfg.reachable_from(pbi, avoid=nexts)
-        exits = [x for x in after if pb.blocks[x]["t"]["k"] == "return"]
-        rep.ob("complete-production", f"{stable(pb.key)}:{kind}", not exits,
+        cfg = P.cfg(body)
+        after = cfg.reachable_from(block, avoid=nexts)
+        exits = [x for x in after if body.blocks[x]["t"]["k"] == "return"]
+        rep.ob("complete-production", label, not exits,
                ("after pushing an error the loop over the hash container continues" if not exits else
                 "after pushing an error the function can return without visiting the remaining entries: which errors are reported then depends on the hash "
-                "iteration order (randomly seeded) and on the number of buckets (= threads)"), pb.file, pt["l"])
+                "iteration order (randomly seeded) and on the number of buckets (= threads)"), body.file, line)
+        return True
+    for pb, pbi, pt, pty in pushes:
+        kind = re.search(r"(ArrayQueue|SegQueue|Vec)", pty).group(1)
+        if (pb.file, kind) not in sorted_kinds:
+            continue
+        if check_site(pb, pbi, pt["l"], f"{stable(pb.key)}:{kind}"):
+            continue
+        # the push may sit in a small helper: look one level up, at the helper's call sites
+        if pb.d["kind"] != "Closure":
+            for cb, cbi, ct in P.callers_of(lambda k, kk=pb.key: k == kk):
+                check_site(cb, cbi, ct["l"], f"{stable(cb.key)}:{kind}")
     rep.floor("complete-production", "pushes into sorted channels from hash-container loops", n_cp, 1)
 
     # inventory of rayon first-error combinators
